@@ -62,6 +62,9 @@ func changeRequestToTarget(req *http.Request, httpsDefault bool) error {
 	}
 
 	targetUrl.Path = req.URL.Path
+	// Keep the client's own escaping of the path (e.g. %2F inside a segment);
+	// without RawPath the URL would be re-encoded from the decoded Path.
+	targetUrl.RawPath = req.URL.RawPath
 	targetUrl.RawQuery = req.URL.RawQuery
 	targetUrl.Fragment = req.URL.Fragment
 	req.URL = targetUrl
